@@ -13,6 +13,9 @@ import ast
 from ..core import AnalysisError
 from ..core import RuleResult
 from ..core import norm
+from ..flow import BaseState
+from ..flow import Domain
+from ..flow import Interp
 from ..model import ancestors
 from ..model import own_nodes
 from ..taintlib import EscapeModel
@@ -70,8 +73,13 @@ def rule_one_escaper(model):
         found = False
         for v in mv.globals.get(tbl, []):
             if isinstance(v, (ast.Tuple, ast.List)):
-                found = any(isinstance(e, ast.Name) and e.id == 'html_quote'
-                            for e in v.elts)
+                found = found or any(
+                    (isinstance(e, ast.Name) and e.id == 'html_quote') or
+                    (isinstance(e, ast.Tuple) and len(e.elts) == 2 and
+                     isinstance(e.elts[1], ast.Name) and
+                     e.elts[1].id == 'html_quote' and
+                     isinstance(e.elts[0], ast.Constant) and
+                     e.elts[0].value == 'html_quote') for e in v.elts)
             elif isinstance(v, ast.Dict):
                 for k, e in zip(v.keys, v.values):
                     if isinstance(k, ast.Constant) and k.value == key:
@@ -90,19 +98,45 @@ def rule_one_escaper(model):
     return r
 
 
+def _regex_chars(model, fi, call):
+    """Characters of a one-class regex behind `name(x)` where name is bound
+    to re.compile(<const>).search / .match."""
+    import re._parser as P
+    import re._constants as C
+    f = call.func
+    if not isinstance(f, ast.Name):
+        return None
+    cands = []
+    r = model.resolve_global(fi.module, f.id)
+    if r and r[0] == 'value':
+        cands += r[1]
+    d = model.param_default(fi, f.id)
+    if d is not None:
+        cands.append(d)
+    for v in cands:
+        if isinstance(v, ast.Attribute) and v.attr in ('search', 'match') \
+                and isinstance(v.value, ast.Call) and \
+                norm(v.value.func) == 're.compile' and v.value.args:
+            ok, pat = model.fold(v.value.args[0], None, fi.module)
+            if not ok:
+                continue
+            tree = P.parse(pat)
+            if len(tree) == 1 and tree[0][0] is C.IN and all(
+                    o is C.LITERAL for o, _ in tree[0][1]):
+                return {chr(a) for _, a in tree[0][1]}
+    return None
+
+
 def fast_path_chars(model):
-    """Characters tested by the 'needs quoting' predicate: the If whose
-    body/orelse assign the skip flag and whose test is a chain of
-    `'c' in t` (or any(c in t for c in '...'))."""
+    """Characters tested by the 'needs quoting' predicate: an If whose test
+    contains a chain of `'c' in t`, any(c in t for c in '...') or a
+    one-class regex search."""
     rb = model.func('_DocumentTemplate', 'render_blocks_')
     best = None
     for n in own_nodes(rb.node):
         if isinstance(n, ast.If):
             chars = set()
-            t = n.test
-            parts = t.values if isinstance(t, ast.BoolOp) and \
-                isinstance(t.op, ast.Or) else [t]
-            for p in parts:
+            for p in ast.walk(n.test):
                 if isinstance(p, ast.Compare) and len(p.ops) == 1 and \
                         isinstance(p.ops[0], ast.In) and \
                         isinstance(p.left, ast.Constant) and \
@@ -117,6 +151,10 @@ def fast_path_chars(model):
                     ok, v = model.fold(g.iter, rb)
                     if ok and isinstance(v, (str, tuple, list)):
                         chars |= set(v)
+                elif isinstance(p, ast.Call):
+                    rc = _regex_chars(model, rb, p)
+                    if rc:
+                        chars |= rc
             if len(chars) >= 2 and (best is None or len(chars) > len(best[1])):
                 best = (n, chars)
     if best is None:
@@ -299,7 +337,116 @@ def rule_identity(model):
     return r
 
 
-RULES = [rule_one_escaper, rule_fast_path, rule_entity, rule_identity]
+class _DefState(BaseState):
+    __slots__ = ('defs', 'trace', 'cur_exc')
+
+    def __init__(self, defs=frozenset()):
+        self.defs = defs
+        self.trace = ()
+        self.cur_exc = None
+
+    def key(self):
+        return self.defs
+
+    def copy(self):
+        n = _DefState(self.defs)
+        n.trace = self.trace
+        return n
+
+
+class _DefDomain(Domain):
+    """Which loop-assigned names are read before this iteration assigned
+    them (loop-carried state)."""
+
+    def __init__(self, tracked):
+        self.tracked = tracked
+        self.carried = {}
+
+    def _reads(self, node, st):
+        for n in ast.walk(node):
+            if isinstance(n, ast.Name) and isinstance(n.ctx, ast.Load) and \
+                    n.id in self.tracked and n.id not in st.defs:
+                self.carried.setdefault(n.id, n)
+
+    def _writes(self, node, st):
+        names = {n.id for n in ast.walk(node) if isinstance(n, ast.Name)
+                 and isinstance(n.ctx, ast.Store) and n.id in self.tracked}
+        if names - st.defs:
+            ns = _DefState(st.defs | names)
+            ns.trace = st.trace
+            return ns
+        return st
+
+    def effects(self, stmt, st):
+        if isinstance(stmt, ast.Assign):
+            self._reads(stmt.value, st)
+            for t in stmt.targets:
+                if not isinstance(t, ast.Name):
+                    self._reads(t, st)
+        elif isinstance(stmt, ast.AugAssign):
+            self._reads(stmt.value, st)
+            self._reads(ast.Name(id=getattr(stmt.target, 'id', ''),
+                                 ctx=ast.Load()), st)
+        else:
+            self._reads(stmt, st)
+        return self._writes(stmt, st)
+
+    def branch(self, test, st):
+        self._reads(test, st)
+        return [(True, st), (False, st)]
+
+    def for_target(self, node, st):
+        self._reads(node.iter, st)
+        return self._writes(node.target, st)
+
+    def enter_handler(self, h, st, exc):
+        if h.name and h.name in self.tracked:
+            return _DefState(st.defs | {h.name})
+        return st
+
+    def on_return(self, node, st):
+        if node.value is not None:
+            self._reads(node.value, st)
+        return [], st
+
+    def loop_head(self, node, st):
+        return st
+
+
+def rule_per_block(model):
+    r = RuleResult('C03.R5', 'each block is rendered independently: no '
+                   'local state is carried from one block of a section to '
+                   'the next')
+    rb = model.func('_DocumentTemplate', 'render_blocks_')
+    loops = [n for n in rb.node.body if isinstance(n, ast.For)]
+    if len(loops) != 1:
+        raise AnalysisError('render_blocks_: block loop not found')
+    lp = loops[0]
+    comp_names = set()
+    for n in ast.walk(lp):
+        if isinstance(n, ast.comprehension):
+            comp_names |= {x.id for x in ast.walk(n.target)
+                           if isinstance(x, ast.Name)}
+    tracked = {n.id for n in ast.walk(lp) if isinstance(n, ast.Name)
+               and isinstance(n.ctx, ast.Store)} - comp_names
+    dom = _DefDomain(tracked)
+    st = _DefState(frozenset({x.id for x in ast.walk(lp.target)
+                              if isinstance(x, ast.Name)}))
+    Interp(dom).block(lp.body, st)
+    r.instance(rb.where, f'for {norm(lp.target)} in {norm(lp.iter)}',
+               f'{len(tracked)} names assigned per block')
+    for name, node in sorted(dom.carried.items()):
+        r.instance(rb.where, f'`{name}` read before assigned', 'CARRIED')
+        r.finding(rb.where, f'loop-carried `{name}`', f'`{name}` is read in '
+                  'the block loop before this iteration assigned it: its '
+                  'value comes from a previous block (e.g. a flag set by an '
+                  'earlier tainted value switches quoting off for later '
+                  'ones)', node=node, ctx=rb)
+    return r
+
+
+RULES = [rule_one_escaper, rule_fast_path, rule_entity, rule_identity,
+         rule_per_block]
 EXPLANATION = (
     'Resolved-callee query for the escaper on all quoting paths; set '
     'inclusion between the characters the fast path tests and the '
